@@ -67,7 +67,7 @@ def _r1b(ctx):
     h = ctx.func("ArchSemantics._handle_instruction_found")
     # non-instruction path and malformed-entry fallback: zeros <-> []
     zero_sites = [n for n in ast.walk(f.node) if isinstance(n, ast.Assign) and U(n.targets[0]) == "instruction_form.port_pressure"
-                  and U(n.value).startswith("[0.0 for")]
+                  and C.zero_vector(n.value) is not None]
     for z in zero_sites:
         blk = getattr(z, "_parent", None)
         body = blk.body if z in getattr(blk, "body", []) else getattr(blk, "orelse", [])
@@ -84,7 +84,7 @@ def _r1b(ctx):
               h.where(), "a directly matched entry no longer gets pressure and micro-ops from the same entry field", h.qname,
               "found path agreement")
     fb = [n for n in ast.walk(h.node) if isinstance(n, ast.ExceptHandler)]
-    ok = bool(fb) and any(U(s).startswith("instruction_form.port_pressure = [0.0 for") for s in fb[0].body) and any(
+    ok = bool(fb) and any(C.is_zero_vector_assign(s, "instruction_form.port_pressure") for s in fb[0].body) and any(
         U(s) == "instruction_form.port_uops = []" for s in fb[0].body)
     ctx.check(ok, "R1b", "malformed-entry fallback: zero pressure and no micro-ops", h.where(), "fallback path changed", h.qname, "fallback agreement")
     ctx.ok("R1b", "composed path: see C08-R1 (sum of averages <-> concatenation of micro-ops)", f.where())
